@@ -203,6 +203,8 @@ def run(facts, rep, tier):
     # ---- T9 compound assignment cannot bypass the policy -----------------------------------------------------
     compound_no_bypass(F, rep)
     exponent_classifiers(F, rep)
+    exponent_shape(F, rep)
+    const_first(F, rep)
     from c01 import compound_tables
     compound_tables(F, rep, "COMPOUND")
     # ---- T10 runtime trait impl outputs -----------------------------------------------------------------------
@@ -682,3 +684,75 @@ def runtime_outputs(F, rep):
                             "runtime impl %s has Output = %s but the numeric policy gives %s" % (inst, got, want),
                             fn=imp["path"]))
     rep.floor("RUNTIMETYPE", "runtime numeric trait impls with an Output type", n, 8)
+
+
+def exponent_shape(F, rep):
+    """EXPSHAPE - lowering erases parentheses, so the emitter's classifier sees `2` where the checker's sees `(2)`:
+    the AST classifier has to look through `Expr::Paren` (name the variant and classify the inner expression with the
+    same code), otherwise `a ** (2)` is float for the checker and integer `pow` for the emitter."""
+    from engines import same_file_family, arm_regions
+    f = F.one_fn("numeric_adapters::pow_exponent_kind_from_ast")
+    if not rep.anchor("EXPSHAPE", "pow_exponent_kind_from_ast", f):
+        return
+    fam = same_file_family(F, f)
+    ok = False
+    seen = []
+    for q in fam:
+        g = F.fns[q] if isinstance(q, str) else q
+        for sw in discr_switches(g):
+            if sw["adt"] != AST + "Expr":
+                continue
+            seen.append(sorted(sw["explicit"]))
+            if "Paren" not in sw["explicit"]:
+                continue
+            region = arm_regions(g, sw).get("Paren", set())
+            # the Paren arm classifies the inner expression: it calls back into the classifier family
+            famp = {x if isinstance(x, str) else x.path for x in fam}
+            if any(g.term(b)["t"] in ("call", "tailcall") and (callee_name(g.term(b)) or "") in famp for b in region):
+                ok = True
+    rep.oblige("EXPSHAPE", "pow_exponent_kind_from_ast:Paren", ok,
+               sample={"rule": "EXPSHAPE", "expr_variants_named": seen, "paren_transparent": ok})
+    if not ok:
+        rep.add(Finding("EXPSHAPE", "EXPSHAPE|pow_exponent_kind_from_ast|Paren",
+                        "the checker's exponent classifier does not look through parentheses while lowering erases "
+                        "them before the emitter's classifier runs: `a ** (2)` is typed float by the checker and "
+                        "emitted as integer `pow`", file=f.file, line=f.line, fn=f.path))
+
+
+def const_first(F, rep):
+    """CONSTFIRST - the type of an un-annotated const is known only after its declaration has been checked, so
+    check_program checks every Const declaration before any other declaration: some check_declaration call sits on the
+    Const edge of a test of the declaration kind, and no call that is not on such an edge can reach it again."""
+    from engines import variant_edges, blocks_dominated_by_edge
+    f = F.one_fn("TypeChecker::check_program")
+    if not rep.anchor("CONSTFIRST", "TypeChecker::check_program", f):
+        return
+    calls = [bi for bi, t in f.calls() if (callee_name(t) or "").endswith("TypeChecker>::check_declaration")]
+    if not rep.anchor("CONSTFIRST", "check_declaration calls in check_program", calls):
+        return
+    from engines import reachable_under_bools, callee_generic
+    heads = {bi for bi, t in f.calls() if (callee_generic(t) or "").endswith("Iterator::next")}
+    const_only = set()
+    for sw in discr_switches(f):
+        if sw["adt"] != AST + "Declaration" or "Const" not in sw["explicit"]:
+            continue
+        others = {t for v, t in sw["explicit"].items() if v != "Const"}
+        if sw["otherwise_live"]:
+            others.add(sw["otherwise"])
+        # `matches!(decl.node, Const(_))` goes through a boolean: follow it per edge, up to the next loop iteration
+        r_const = reachable_under_bools(f, {}, start=sw["explicit"]["Const"], avoid=heads)
+        r_other = set()
+        for o in others:
+            r_other |= reachable_under_bools(f, {}, start=o, avoid=heads)
+        const_only |= (r_const - r_other)
+    first = [c for c in calls if c in const_only]
+    rest = [c for c in calls if c not in const_only]
+    ok = bool(first) and all(not any(c1 in f.reachable(c2) - {c2} for c1 in first) for c2 in rest) and \
+        all(any(c2 in f.reachable(c1) for c1 in first) for c2 in rest)
+    rep.oblige("CONSTFIRST", "check_program", ok, sample={"rule": "CONSTFIRST", "const_only_calls": len(first),
+                                                          "other_calls": len(rest)})
+    if not ok:
+        rep.add(Finding("CONSTFIRST", "CONSTFIRST|check_program",
+                        "check_program no longer checks every const before the other declarations: a function body "
+                        "placed before an un-annotated const sees it as Unknown, so `K / 2` is typed without "
+                        "consulting the numeric table", file=f.file, line=f.line, fn=f.path))
